@@ -443,7 +443,7 @@ package diam
 //@ func NewServeMux() (mux)
 //@   property C09
 //@   modifies
-//@   ensures [C09] empty: mux != nil && fresh(mux) && mux.m != nil && mux.idxMap != nil && !closed(mux.e) &&
+//@   ensures [C09] empty: mux != nil && fresh(mux) && mux.m != nil && mux.idxMap != nil && fresh(mux.m) && fresh(mux.idxMap) && !closed(mux.e) &&
 //@           (forall k CommandIndex :: !has(mux.idxMap, k)) && (forall s string :: !has(mux.m, s))
 //@ end
 //@
